@@ -67,4 +67,56 @@ theorem c20_footprint :
        ("Claims", "convert_claims", "assign", "claims[k]"),
        ("OKPKey", "public_key", "decorator", "cached_property")] := by decide
 
+/-- **Containers created once at import time** (module level or class body; `tools/extract.py:shared_containers`):
+the registry tables, the algorithm lists and per-algorithm parameter tables, the curve maps and the key-type tables —
+all of them configuration that only `register*` functions and class definitions fill (`c20_footprint` lists no
+write to any of them).  Pinned, so that a new one — a cache, a memo, a "default" dict moved from `__init__` into the
+class body — changes this list. -/
+theorem c20_shared_containers :
+    Generated.sharedContainers =
+      [("_keys.py", "JWKRegistry", "key_types"),
+       ("_keys.py", "KeySet", "algorithm_keys"),
+       ("drafts/jwe_chacha20.py", "<module>", "JWE_ENC_MODELS"),
+       ("drafts/jwe_ecdh_1pu.py", "<module>", "JWE_ALG_MODELS"),
+       ("drafts/jwe_ecdh_1pu.py", "ECDH1PUAlgModel", "key_types"),
+       ("drafts/jwe_ecdh_1pu.py", "ECDH1PUAlgModel", "more_header_registry"),
+       ("registry.py", "<module>", "JWE_HEADER_REGISTRY"),
+       ("registry.py", "<module>", "JWK_OPERATION_REGISTRY"),
+       ("registry.py", "<module>", "JWK_PARAMETER_REGISTRY"),
+       ("registry.py", "<module>", "JWS_HEADER_REGISTRY"),
+       ("registry.py", "<module>", "_value_validators"),
+       ("rfc7515/registry.py", "JWSRegistry", "algorithms"),
+       ("rfc7515/registry.py", "JWSRegistry", "recommended"),
+       ("rfc7516/models.py", "JWEDirectEncryption", "key_types"),
+       ("rfc7516/models.py", "JWEKeyAgreement", "key_types"),
+       ("rfc7516/models.py", "JWEKeyWrapping", "key_types"),
+       ("rfc7516/models.py", "KeyManagement", "more_header_registry"),
+       ("rfc7516/registry.py", "JWERegistry", "algorithms"),
+       ("rfc7516/registry.py", "JWERegistry", "recommended"),
+       ("rfc7517/models.py", "NativeKeyBinding", "use_key_ops_registry"),
+       ("rfc7518/ec_key.py", "ECBinding", "_curves_dss"),
+       ("rfc7518/ec_key.py", "ECBinding", "_dss_curves"),
+       ("rfc7518/ec_key.py", "ECKey", "value_registry"),
+       ("rfc7518/jwe_algs.py", "<module>", "JWE_ALG_MODELS"),
+       ("rfc7518/jwe_algs.py", "AESGCMAlgModel", "more_header_registry"),
+       ("rfc7518/jwe_algs.py", "ECDHESAlgModel", "key_types"),
+       ("rfc7518/jwe_algs.py", "ECDHESAlgModel", "more_header_registry"),
+       ("rfc7518/jwe_algs.py", "PBES2HSAlgModel", "key_types"),
+       ("rfc7518/jwe_algs.py", "PBES2HSAlgModel", "more_header_registry"),
+       ("rfc7518/jwe_algs.py", "RSAAlgModel", "key_types"),
+       ("rfc7518/jwe_encs.py", "<module>", "JWE_ENC_MODELS"),
+       ("rfc7518/jwe_zips.py", "<module>", "JWE_ZIP_MODELS"),
+       ("rfc7518/jws_algs.py", "<module>", "JWS_ALGORITHMS"),
+       ("rfc7518/oct_key.py", "OctKey", "value_registry"),
+       ("rfc7518/rsa_key.py", "RSAKey", "value_registry"),
+       ("rfc7797/registry.py", "JWSRegistry", "default_header_registry"),
+       ("rfc8037/okp_key.py", "<module>", "PRIVATE_KEYS_MAP"),
+       ("rfc8037/okp_key.py", "<module>", "PUBLIC_KEYS_MAP"),
+       ("rfc8037/okp_key.py", "OKPKey", "value_registry")] := by decide
+
+/-- No class whose instances are per-call message objects (`perCallOwners`) owns a class-level container: the state of a
+message object is created in its `__init__`, per instance. -/
+theorem c20_message_classes_own_no_shared_container :
+    ∀ e ∈ Generated.sharedContainers, perCallOwners.contains e.2.1 = false := by decide
+
 end Jose.C20Frame
